@@ -371,6 +371,7 @@ func linkAttrAlphabet() []string {
 		` href="/%2Fe.x/&lt;"`, // raw value a local path, normal form re-escaped
 		` href="https:e.x/p"`,  // no slashes after a special scheme: a browser still finds the host e.x
 		` href="ftp:e.x/p"`,
+		` href="https:/e.x/p"`, // one slash: net/url sees a path, a browser the host e.x
 		` rel=""`, ` rel="nofollow"`, ` rel="noreferrer"`, ` rel="noopener"`, ` rel="NOFOLLOW"`, ` rel="nofollowx"`, ` rel="xnofollow"`,
 		` rel="external nofollow"`, ` rel="a&#9;b"`, ` rel="xnoopener noreferrerx"`, ` rel="nofollow&nbsp;noreferrer&nbsp;noopener"`,
 		` target="_blank"`, ` target="_self"`, ` target="x"`, ` title="t"`,
